@@ -525,6 +525,33 @@ def check_item(item: tuple) -> dict:
         for label, m in mutations(d, ctxt, False):
             if label.startswith(("key-substituted", "signed-by-other-key", "signature-of-other", "payload-splice")):
                 deliver_known(label + "|sender-verified", m)
+        # third pass: a fault inside the handler of the genuine datagram (every send of the receiver fails with
+        # OSError while it is handled, as a closed interface or an unreachable network does) must not change what the
+        # next datagrams need in order to be accepted
+        def deliver_after_fault(label: str, data: bytes) -> None:
+            real_send = r_node.endpoint.send
+
+            def failing_send(*a, **k) -> None:  # noqa: ANN002, ANN003, ARG001
+                raise OSError(101, "Network is unreachable")
+            r_node.endpoint.send = failing_send
+            before = {p.public_key.key_to_bin() for p in r_ov.network.verified_peers}
+            try:
+                r_node.endpoint.notify_listeners((src, d))
+                w.loop.settle()
+            except Exception:  # noqa: BLE001, S110
+                pass
+            finally:
+                r_node.endpoint.send = real_send
+            del w.loop.exceptions[:]
+            for p in list(r_ov.network.verified_peers):
+                if p.public_key.key_to_bin() not in before:
+                    r_ov.network.remove_peer(p)
+            del w.inflight[:]
+            deliver(label, data)
+
+        for label, m in mutations(d, ctxt, False):
+            if label.startswith(("zero-signature", "signed-by-other-key", "key-substituted", "payload-splice")):
+                deliver_after_fault(label + "|after-send-failure", m)
         res["sample"] = {"overlay": name, "msg_id": mid, "handler": handler_name, "curve": curve, "len": len(d),
                          "valid_prefix_hex": d[:40].hex()}
         return res
